@@ -1,12 +1,16 @@
 """C19 -- timed waits respect their deadline and never damage the waiter queue
 (structural part)."""
-from abtverif import cfg, locks, seq
+import re
+
+from abtverif import canon, cfg, locks, seq
 from abtverif.seq import show, has_if
 from . import common, C05
+from .C04 import lock_key_is
 
 EXPLANATION = (
-    "Decides on every path of ABTI_waitlist_wait_timedout_and_unlock that the timeout label is reached only "
-    "behind a true `cur_time >= target_time` test and with the wait-list lock held, that is_timedout is computed "
+    "Decides on every path of ABTI_waitlist_wait_timedout_and_unlock that the timeout code (everything behind a "
+    "passed deadline test, however it is reached: goto label, early return or helper) is entered only "
+    "behind a true `now >= target_time` test and with the wait-list lock held, that is_timedout is computed "
     "under that lock from the waiter's state, that all unlink stores happen under the lock (R1); that the unlink "
     "code distinguishes head / middle / tail and repairs head, tail, predecessor and successor links in each "
     "case (R2); that the timed enqueue records the back link the unlink relies on (R3); that the busy-waiting "
@@ -16,8 +20,10 @@ EXPLANATION = (
 DECLINED = ["deadline accuracy / behaviour under a virtual clock", "which waiter a later signal wakes"]
 ASSUMPTIONS = ["ABTI_get_wtime is monotonic enough for the deadline comparison"]
 RULES_DOC = dict(common.SHARED_DOC)
+RULES_DOC["X4"] = common.X4_DOC
+RULES_DOC["R6"] = "= C05.R1: the timed wait releases the mutex and enqueues inside one critical section of the condition's lock (a signal cannot fall between them and be lost until the timeout)"
 RULES_DOC.update({
-    "R1": "timeout label: reached only after cur_time >= target_time, with the lock held; is_timedout and all unlink stores under the lock",
+    "R1": "timeout code: reached only after now >= target_time, with the lock held; is_timedout (= state != READY) and all unlink stores under the lock",
     "R2": "unlink distinguishes head/middle/tail and repairs p_head, p_tail, predecessor->p_next and successor->p_prev accordingly",
     "R3": "timed enqueue appends at the tail and records p_prev (NULL for an empty list)",
     "R4": "FIFO/RANDWS pop_wait and pop_timedwait: no loop iteration without reading the clock; a deadline test leads to the empty-handed return",
@@ -30,16 +36,157 @@ FN = "ABTI_waitlist_wait_timedout_and_unlock"
 LIST_FIELDS = {"p_head", "p_tail", "p_next", "p_prev"}
 
 
-def _label_block(F, name):
-    bs = [b for b in F.blocks.values() if b.label == name]
-    return bs[0].id if len(bs) == 1 else None
+HEAD, TAIL = "ABTI_waitlist::p_head", "ABTI_waitlist::p_tail"
+STATE = "ABTI_thread::state"
+READY_TEST = "(&%s) == ABT_THREAD_STATE_READY" % STATE
+
+
+class _Anchors:
+    """Name-independent anchors of the timed wait: the dummy waiter (the only local of type ABTI_thread), the
+    deadline tests (`ABTI_get_wtime() < <the double parameter>`, whichever way round and whatever the local that
+    holds the clock value is called) and the timeout code = everything reachable from a passed deadline test,
+    entered at the first block that re-checks the waiter's state or touches the list."""
+
+    def __init__(self, P, rep):
+        F = self.F = P.fn(FN, WL)
+        ws = sorted(set(v["n"] for nd in F.nodes if nd and nd.get("k") == "decl" for v in nd["vars"]
+                        if v["t"].replace(" ", "") == "ABTI_thread"))
+        rep.need(len(ws) == 1, "%s: dummy waiters of type ABTI_thread: %s" % (FN, ws))
+        self.W = ws[0]
+        self.wl = F.params[1]["n"]
+        self.lockp = F.params[2]["n"]
+        dl = [p["n"] for p in F.params if p["t"] == "double"]
+        rep.need(len(dl) == 1, "%s: deadline parameters %s" % (FN, dl))
+        self.DL = "ABTI_get_wtime() < %s" % dl[0]
+        # deadline tests and, for each, the successor taken when the deadline has passed (label false)
+        self.passed_edges = []
+        for bid in sorted(cfg.reachable_blocks(F)):
+            B = F.blocks[bid]
+            if B.tc is None or B.tk == "SwitchStmt" or len(B.succs) != 2:
+                continue
+            aj, at = cfg.cond_atom(F, B.tc, True)
+            lab, flip = canon.cond(F, aj)
+            if lab == self.DL:
+                on_true = (at != flip)          # value of the label on the true edge
+                s = B.succs[1] if on_true else B.succs[0]
+                if s is not None:
+                    self.passed_edges.append((bid, s))
+        rep.need(self.passed_edges, "%s: no deadline test `%s`" % (FN, self.DL))
+        region = set()
+        for _b, s in self.passed_edges:
+            region |= cfg.reachable_blocks(F, s)
+        rep.need(not any(b in region for b, _s in self.passed_edges), "the timeout code loops back to a deadline test")
+        # entry blocks: first blocks (from a passed deadline) that re-check the state or touch the list
+        self.entries = set()
+        seen = set()
+        st = [s for _b, s in self.passed_edges]
+        while st:
+            x = st.pop()
+            if x in seen:
+                continue
+            seen.add(x)
+            if any(self.is_unlink_event(i) for i in F.blocks[x].elems):
+                self.entries.add(x)
+                continue
+            st.extend(s for s in F.blocks[x].succs if s is not None)
+        rep.need(self.entries, "timeout code unreachable")
+        self.after = set()
+        for e in self.entries:
+            self.after |= cfg.reachable_blocks(F, e)
+
+    def is_list_store(self, nid):
+        nd = self.F.nodes[nid]
+        return nd.get("k") == "bin" and nd.get("asg") and (self.F.field_of(nd["lh"]) or ("", ""))[1] in LIST_FIELDS
+
+    def is_state_read(self, nid):
+        nd = self.F.nodes[nid]
+        return nd.get("k") == "call" and (nd.get("fn") or "").startswith("ABTD_atomic_") and "_load_" in nd["fn"] and \
+            bool(nd["a"]) and self.F.field_of(nd["a"][0]) == ("ABTI_thread", "state")
+
+    def is_unlink_event(self, nid):
+        return self.is_list_store(nid) or self.is_state_read(nid)
+
+    def is_unlink_store(self, nid):
+        """A list store that does not insert the dummy waiter: the enqueue only ever stores `&waiter` or writes
+        the waiter's own links; anything else (head/tail moved elsewhere, a neighbour's link rewritten) unlinks."""
+        if not self.is_list_store(nid):
+            return False
+        lh, rh = self.store((nid,))
+        return rh != "&<waiter>" and lh not in ("<waiter>.p_next", "<waiter>.p_prev")
+
+    def side(self, i):
+        """Object-identifying rendering of a stored value / store target: rooted at the list parameter or the
+        dummy waiter, locals resolved through their definitions."""
+        F = self.F
+        nd = F.nodes[F.strip(i)]
+        if nd.get("cv") == 0 and nd.get("k") != "ref":
+            return 0
+        r = canon.rooted(F, i)
+        # a local pointer to the dummy waiter: (&thread)->f is thread.f
+        r = r.replace("&%s->" % self.W, "%s." % self.W)
+        for name, tag in ((self.W, "<waiter>"), (self.wl, "<list>")):
+            r = re.sub(r"(?<![A-Za-z0-9_>.])%s(?![A-Za-z0-9_])" % re.escape(name), tag, r)
+        return r
+
+    def store(self, tok):
+        nd = self.F.nodes[tok[-1]]
+        return (self.side(nd["lh"]), self.side(nd["rh"]))
+
+
+def _operand(F, i):
+    """The expression a truth-test atom examines (`!x`, `x == NULL`, `x != 0`, likely(x) -> x)."""
+    while True:
+        i = F.strip(i)
+        nd = F.nodes[i]
+        k = nd.get("k")
+        if k == "un" and nd["op"] == "!":
+            i = nd["e"]
+        elif k == "call" and nd.get("fn") in ("__builtin_expect", "ABTU_likely", "ABTU_unlikely") and nd.get("a"):
+            i = nd["a"][0]
+        elif k == "bin" and nd["op"] in ("==", "!=") and F.nodes[F.strip(nd["rh"])].get("cv") == 0 and \
+                F.nodes[F.strip(nd["rh"])].get("k") != "ref":
+            i = nd["lh"]
+        elif k == "bin" and nd["op"] in ("==", "!=") and F.nodes[F.strip(nd["lh"])].get("cv") == 0 and \
+                F.nodes[F.strip(nd["lh"])].get("k") != "ref":
+            i = nd["rh"]
+        else:
+            return i
+
+
+def _unlink_cond(A):
+    """Canonical labels of the tests of the timeout code."""
+    def cond(t, F, node):
+        if t.endswith(READY_TEST):
+            return "ready"                      # is_timedout is `state != READY`: looked through, arrives flipped
+        if STATE in t:
+            return "state:" + t
+        if " == " in t and set(t.split(" == ")) == {"&" + A.W, HEAD}:
+            return "is-head"
+        if t == "ABTI_thread::p_next":
+            r = A.side(_operand(F, node))
+            return "has-next" if r == "<waiter>.p_next" else "next-of:%s" % r
+        if t == "ABTI_thread::type":
+            return "type-not-ext"               # thread.type != ABTI_THREAD_TYPE_EXT (0)
+        if t.startswith("ABTI_thread::type =="):
+            return "type:" + t
+        return None
+    return cond
+
+
+def _timeout_paths(A):
+    """Token paths of the timeout code (from each of its entry blocks to the return)."""
+    sel = seq.Sel(fields=LIST_FIELDS, conds=_unlink_cond(A), canon=True)
+    out = {}
+    for e in sorted(A.entries):
+        for p in seq.sequences(A.F, sel, max_len=40, start=e):
+            if p[1] == "ret":
+                out[seq.strip_ids(p[0]) + (p[2],)] = p
+    return [out[k] for k in sorted(out, key=repr)]
 
 
 def rule_R1(P, rep):
-    F = P.fn(FN, WL)
-    lb = _label_block(F, "timeout")
-    rep.need(lb is not None, "label 'timeout' not found in %s" % FN)
-    lockp = F.params[2]["n"]
+    A = _Anchors(P, rep)
+    F, lockp = A.F, A.lockp
 
     class TS(locks.LockTS):
         def __init__(self, P):
@@ -47,94 +194,131 @@ def rule_R1(P, rep):
             self.entries = []
 
         def enter(self, F, bid, st, ctx):
-            if bid == lb:
-                self.entries.append((st[0], ctx.facts.get("cur_time >= target_time")))
+            if bid in A.entries:
+                self.entries.append(st[0])
+
+    class Deadline(cfg.Typestate):
+        """state: was the most recent deadline test (since the clock was last read) true?"""
+        init = False
+
+        def __init__(self):
+            self.entries = []
+            self.at = {}
+
+        def event(self, F, nid, st, ctx):
+            self.at.setdefault(nid, set()).add(st)
+            nd = F.nodes[nid]
+            if nd.get("k") == "call" and nd.get("fn") == "ABTI_get_wtime":
+                return False
+            return st
+
+        def edge(self, F, bid, key, truth, st, ctx):
+            if ctx.cond_node is not None:
+                lab, flip = canon.cond(F, ctx.cond_node)
+                if lab == A.DL:
+                    return not (bool(ctx.cond_val) != flip)
+            return st
+
+        def enter(self, F, bid, st, ctx):
+            if bid in A.entries:
+                self.entries.append(st)
+
+    def has_lock(held):
+        # the caller's lock, also when it is used through a local copy of the pointer
+        return any(k == lockp or lock_key_is(F, k, lockp) for k in held)
 
     ts = TS(P)
     cfg.simulate(F, ts)
-    rep.need(ts.entries, "timeout label unreachable")
-    gotos = [b for b in F.blocks.values() if b.goto == "timeout"]
-    rep.need(len(gotos) >= 1, "no goto timeout")
-    ok = all(lockp in held for held, fact in ts.entries)
-    rep.ob("R1", "timeout label is entered with %s held on every path (%d entry states, %d gotos)" %
-           (lockp, len(ts.entries), len(gotos)), ok, "lock sets at the label: %s" % sorted(sorted(h) for h, f in ts.entries),
+    dts = Deadline()
+    cfg.simulate(F, dts)
+    rep.need(ts.entries and dts.entries, "timeout code unreachable")
+    ok = all(has_lock(held) for held in ts.entries)
+    rep.ob("R1", "the timeout code is entered with %s held on every path (%d entry states, %d deadline exits)" %
+           (lockp, len(ts.entries), len(A.passed_edges)), ok, "lock sets at the entry: %s" % sorted(sorted(h) for h in ts.entries),
            loc=F.file, site="timeout/lock-held")
-    ok = all(fact is True for held, fact in ts.entries)
-    rep.ob("R1", "timeout label is entered only after `cur_time >= target_time` was true", ok,
-           "facts at the label: %s" % sorted(str(f) for h, f in ts.entries), loc=F.file, site="timeout/deadline-guard")
-    # nodes after the label
-    after = cfg.reachable_blocks(F, lb)
+    ok = all(f is True for f in dts.entries)
+    rep.ob("R1", "the timeout code is entered only after `now >= deadline` was true", ok,
+           "deadline facts at the entry: %s" % sorted(str(f) for f in dts.entries), loc=F.file, site="timeout/deadline-guard")
+    # unlink stores and the state re-check of the timeout code
     n = 0
-    for bid in sorted(after):
+    for bid in sorted(cfg.reachable_blocks(F)):
         for nid in F.block_events(bid):
-            nd = F.nodes[nid]
-            k = nd.get("k")
-            is_list_store = (k == "bin" and nd.get("asg") and (F.field_of(nd["lh"]) or ("", ""))[1] in LIST_FIELDS)
-            is_timedout_decl = k == "decl" and any(v["n"] == "is_timedout" for v in nd["vars"])
-            if not (is_list_store or is_timedout_decl):
+            # (an unlink store counts wherever it is: a copy of the timeout code that is reached without a passed
+            # deadline test, e.g. through a helper called from the wrong place, is not exempt)
+            if not (A.is_unlink_store(nid) or (bid in A.after and A.is_unlink_event(nid))):
                 continue
             n += 1
             helds = ts.at.get(nid, set())
-            rep.ob("R1", "%s executes under the wait-list lock" % F.render(nid)[:90],
-                   bool(helds) and all(lockp in h for h in helds), "lock sets: %s" % sorted(sorted(h) for h in helds),
-                   loc=F.loc(nid), site="timeout/under-lock/%s" % F.render(nid)[:60])
-            if is_timedout_decl:
-                txt = F.render(nid)
-                ok = "thread.state" in txt and "ABT_THREAD_STATE_READY" in txt and "!=" in txt
-                rep.ob("R1", "is_timedout is derived from `state != READY`", ok, txt, loc=F.loc(nid),
-                       site="timeout/is_timedout")
-    rep.need(n >= 5, "only %d unlink stores found after the label" % n)
-    # thread.type is the EXT constant, stored once before the label (used by R2 as an entry fact)
-    st = [(b, i, lh, rh) for b, i, lh, rh in F.stores() if F.render(lh) == "thread.type"]
-    ok = len(st) == 1 and F.nodes[F.strip(st[0][3])].get("cv") == 0 and st[0][0] not in after
+            passed = dts.at.get(nid, set())
+            what = ("%s = %s" % A.store((nid,))) if A.is_list_store(nid) else "re-check of the waiter's state (%s)" % F.nodes[nid]["fn"]
+            why = []
+            if not (bool(helds) and all(has_lock(h) for h in helds)):
+                why.append("lock sets: %s" % sorted(sorted(h) for h in helds))
+            if not (bool(passed) and all(f is True for f in passed)):
+                why.append("reached without a passed deadline test (deadline facts: %s)" % sorted(str(f) for f in passed))
+            rep.ob("R1", "%s executes under the wait-list lock" % what, not why, "; ".join(why),
+                   loc=F.loc(nid), site="timeout/under-lock/%s" % what)
+    rep.need(n >= 5, "only %d unlink stores found in the timeout code" % n)
+    # the verdict (return value and the decision to unlink) is `state != READY` as re-checked in the timeout code
+    ps = _timeout_paths(A)
+    rep.need(len(ps) >= 2, "timeout code has only %d paths" % len(ps))
+    why = []
+    for toks, kind, rv, rtxt in ps:
+        rd = [t for t in toks if t[0] == "if" and (t[1] == "ready" or t[1].startswith("state:"))]
+        # (the ternary that computes the verdict and the later test of the local holding it are the same test)
+        if not rd or any(t[1] != "ready" or t[2] != rd[0][2] for t in rd):
+            why.append("state tests %s" % [t[1:3] for t in rd])
+        elif rv != (0 if rd[0][2] else 1):
+            why.append("returns %s when state %s READY" % (rv if rv is not None else rtxt, "==" if rd[0][2] else "!="))
+    rep.ob("R1", "is_timedout is derived from `state != READY`", not why, "; ".join(sorted(set(why))),
+           loc="%s:%d" % (F.file, F.line), site="timeout/is_timedout")
+    # thread.type is the EXT constant, stored once before the timeout code (used by R2 as an entry fact)
+    st = [(b, i, lh, rh) for b, i, lh, rh in F.stores() if F.field_of(lh) == ("ABTI_thread", "type") and
+          A.side(lh) == "<waiter>.type"]
+    ok = len(st) == 1 and F.nodes[F.strip(st[0][3])].get("cv") == 0 and st[0][0] not in A.after
     rep.ob("R1", "the dummy waiter's type is stored once (ABTI_THREAD_TYPE_EXT) before the timeout code", ok,
            str([F.render(i) for b, i, lh, rh in st]), loc=F.file, site="timeout/thread.type")
     rep.min_instances("R1", 8)
 
 
 def rule_R2(P, rep):
-    F = P.fn(FN, WL)
-    lb = _label_block(F, "timeout")
-    sel = seq.Sel(fields=LIST_FIELDS,
-                  conds=lambda t: t in ("is_timedout", "p_waitlist->p_head == &thread", "thread.p_next") or
-                  t.startswith("thread.type"))
-    ps = [p for p in seq.sequences(F, sel, max_len=40, start=lb) if p[1] == "ret"]
+    A = _Anchors(P, rep)
+    F = A.F
+    ps = _timeout_paths(A)
     # entry fact established by R1: thread.type == ABTI_THREAD_TYPE_EXT (0)
-    ps = [p for p in ps if not any(t[0] == "if" and t[1].startswith("thread.type") and
-                                   (("== " in t[1]) != t[2]) for t in p[0])]
+    ps = [p for p in ps if not has_if(p[0], "type-not-ext", True)]
     rep.need(len(ps) >= 5, "timeout code has only %d paths" % len(ps))
+    W_NEXT, W_PREV = "<waiter>.p_next", "<waiter>.p_prev"
     cases = set()
     for toks, kind, rv, rtxt in ps:
-        stores = [(t[1], t[3]) for t in toks if t[0] == "st"]
+        stores = [A.store(t) for t in toks if t[0] == "st"]
         why = []
-        if not has_if(toks, "is_timedout", True):
+        odd = [t[1] for t in toks if t[0] == "if" and t[1].split(":")[0] in ("state", "next-of", "type")]
+        if odd:
+            why.append("unrecognised test %s" % odd[0])
+        if not has_if(toks, "ready", False):
             case = "signalled"
             if stores:
                 why.append("a signalled waiter must not touch the list")
-        elif has_if(toks, "p_waitlist->p_head == &thread", True):
-            if has_if(toks, "thread.p_next", False):
+        elif has_if(toks, "is-head", True):
+            if has_if(toks, "has-next", False):
                 case = "head+tail"
-                want = {("ABTI_waitlist::p_head", "thread.p_next"), ("ABTI_waitlist::p_tail", 0)}
+                want = {("<list>->p_head", W_NEXT), ("<list>->p_tail", 0)}
             else:
                 case = "head"
-                want = {("ABTI_waitlist::p_head", "thread.p_next")}
+                want = {("<list>->p_head", W_NEXT)}
             if set(stores) != want or len(stores) != len(want):
                 why.append("stores %s, expected %s" % (stores, sorted(want, key=str)))
         else:
-            if has_if(toks, "thread.p_next", True):
+            # the predecessor link is written through thread.p_prev, the successor's through thread.p_next
+            if has_if(toks, "has-next", True):
                 case = "middle"
-                want = {("ABTI_thread::p_next", "thread.p_next"), ("ABTI_thread::p_prev", "thread.p_prev")}
+                want = {(W_PREV + "->p_next", W_NEXT), (W_NEXT + "->p_prev", W_PREV)}
             else:
                 case = "tail"
-                want = {("ABTI_thread::p_next", "thread.p_next"), ("ABTI_waitlist::p_tail", "thread.p_prev")}
+                want = {(W_PREV + "->p_next", W_NEXT), ("<list>->p_tail", W_PREV)}
             if set(stores) != want or len(stores) != len(want):
                 why.append("stores %s, expected %s" % (stores, sorted(want, key=str)))
-            # the predecessor link must be written through thread.p_prev, the successor's through thread.p_next
-            for t in toks:
-                if t[0] == "st" and t[1] == "ABTI_thread::p_next" and F.render(F.nodes[t[4]]["lh"]) != "thread.p_prev->p_next":
-                    why.append("p_next written on %s" % F.render(F.nodes[t[4]]["lh"]))
-                if t[0] == "st" and t[1] == "ABTI_thread::p_prev" and F.render(F.nodes[t[4]]["lh"]) != "thread.p_next->p_prev":
-                    why.append("p_prev written on %s" % F.render(F.nodes[t[4]]["lh"]))
         cases.add(case)
         rep.ob("R2", "unlink case '%s': [%s]" % (case, show(toks)), not why, "; ".join(why),
                loc="%s:%d" % (F.file, F.line), site="unlink/%s" % case)
@@ -145,12 +329,11 @@ def rule_R2(P, rep):
 
 
 def rule_R3(P, rep):
-    F = P.fn(FN, WL)
-    sel = seq.Sel(fields=LIST_FIELDS, conds=lambda t: t == "p_waitlist->p_head == (void *)0", locks=False)
-    lb = _label_block(F, "timeout")
+    A = _Anchors(P, rep)
+    F = A.F
     # only the straight-line enqueue prefix: stop at the first lock/yield/clock event by cutting the sequences
-    ps = seq.sequences(F, seq.Sel(fields=LIST_FIELDS, conds=lambda t: t == "p_waitlist->p_head == (void *)0",
-                                  calls={"ABTI_get_wtime", "ABTI_ythread_yield"}), max_len=120)
+    ps = seq.sequences(F, seq.Sel(fields=LIST_FIELDS, conds=lambda t: "nonempty" if t == HEAD else None,
+                                  calls={"ABTI_get_wtime", "ABTI_ythread_yield"}, canon=True), max_len=120)
     prefixes = set()
     for toks, kind, rv, rtxt in ps:
         if kind != "ret":
@@ -159,24 +342,37 @@ def rule_R3(P, rep):
         for t in toks:
             if t[0] in ("acq", "rel", "xfer", "call"):
                 break
-            pre.append(tuple(t[:4]))
+            pre.append(("st",) + A.store(t) if t[0] == "st" else tuple(t[:3]))
         prefixes.add(tuple(pre))
     rep.need(len(prefixes) == 2, "enqueue prefix has %d shapes" % len(prefixes))
+    ME, W_NEXT, W_PREV = "&<waiter>", "<waiter>.p_next", "<waiter>.p_prev"
     for pre in sorted(prefixes, key=str):
-        stores = [(t[1], t[3]) for t in pre if t[0] == "st"]
-        empty = any(t[0] == "if" and t[2] for t in pre)
+        stores = [t[1:] for t in pre if t[0] == "st"]
+        empty = has_if(pre, "nonempty", False)
         if empty:
-            want = [("ABTI_thread::p_next", 0), ("ABTI_waitlist::p_head", "&thread"), ("ABTI_thread::p_prev", 0),
-                    ("ABTI_waitlist::p_tail", "&thread")]
+            want = [(W_NEXT, 0), ("<list>->p_head", ME), (W_PREV, 0), ("<list>->p_tail", ME)]
         else:
-            want = [("ABTI_thread::p_next", 0), ("ABTI_thread::p_next", "&thread"),
-                    ("ABTI_thread::p_prev", "p_waitlist->p_tail"), ("ABTI_waitlist::p_tail", "&thread")]
+            want = [(W_NEXT, 0), ("<list>->p_tail->p_next", ME), (W_PREV, "<list>->p_tail"), ("<list>->p_tail", ME)]
         ok = sorted(stores, key=str) == sorted(want, key=str)
         if ok and not empty:
             # the back link must be read before the tail is overwritten
-            ok = stores.index(("ABTI_thread::p_prev", "p_waitlist->p_tail")) < stores.index(("ABTI_waitlist::p_tail", "&thread"))
+            ok = stores.index((W_PREV, "<list>->p_tail")) < stores.index(("<list>->p_tail", ME))
         rep.ob("R3", "timed enqueue on %s list: %s" % ("an empty" if empty else "a non-empty", stores), ok,
                "expected %s" % want, loc="%s:%d" % (F.file, F.line), site="enqueue/%s" % ("empty" if empty else "nonempty"))
+
+
+def _r4_cond(F):
+    """Deadline test of a busy-waiting pop: `<the double parameter> < <clock-derived value>` (true = time is up),
+    whatever the locals holding the clock values are called and whichever way round the test is written."""
+    lim = [p["n"] for p in F.params if p["t"] == "double"]
+
+    def cond(t):
+        if "ABTI_get_wtime()" not in t:
+            return None
+        if lim and t.startswith(lim[0] + " < ") and "ABTI_get_wtime()" in t[len(lim[0]) + 3:]:
+            return "time-is-up"
+        return "clock:" + t
+    return cond
 
 
 def rule_R4(P, rep):
@@ -192,10 +388,13 @@ def rule_R4(P, rep):
                    "a cycle through blocks %s never calls ABTI_get_wtime" % cyc if cyc else "", loc="%s:%d" % (F.file, F.line),
                    site="%s:%s/clock" % (file, name))
             # deadline exit: some branch whose condition reads a clock-derived value leads to a return of the NULL handle
-            sel = seq.Sel(calls={"ABTI_get_wtime"}, conds=lambda t: "time" in t or "elapsed" in t, rets=True, locks=False)
+            sel = seq.Sel(calls={"ABTI_get_wtime"}, conds=_r4_cond(F), rets=True, locks=False, canon=True)
             ps = seq.sequences(F, sel, max_len=60)
-            dl = [p for p in ps if p[1] == "ret" and any(t[0] == "if" and t[2] and ("elapsed >" in t[1] or "ABTI_get_wtime() >" in t[1])
-                                                        for t in p[0])]
+            # (the return follows the true test directly and yields a constant, i.e. the NULL handle)
+            def exits(toks, rv):
+                last = max([i for i, t in enumerate(toks) if t[0] == "if" and t[1] == "time-is-up" and t[2]] + [-1])
+                return last >= 0 and rv is not None and all(t[0] == "ret" for t in toks[last + 1:])
+            dl = [p for p in ps if p[1] == "ret" and exits(p[0], p[2])]
             rep.ob("R4", "%s:%s has a deadline exit (time test true -> empty-handed return)" % (file, name), bool(dl),
                    "no returning path is guarded by a true elapsed/abstime comparison", loc="%s:%d" % (F.file, F.line),
                    site="%s:%s/deadline" % (file, name))
@@ -227,6 +426,8 @@ def _has_cycle(F, nodes):
 
 
 def run(P, rep, tier):
+    if tier == "thorough":
+        common.rule_X4(P, rep)
     common.run_shared(P, rep, which=("X2", "X3"))
     rule_R1(P, rep)
     rule_R2(P, rep)
@@ -242,3 +443,4 @@ def run(P, rep, tier):
             v["rule"] = "R5"
     if "R6" in rep.instances:
         rep.instances["R5"] = rep.instances.pop("R6")
+    common.borrow(rep, P, C05.rule_R1, "R6")
